@@ -1,5 +1,5 @@
 """C11 - realign output is exactly-once and in input order under every schedule."""
-from props.realign_common import explore_config
+from props.realign_common import apalache_counting_proof, explore_config
 
 
 def run(ctx):
@@ -23,6 +23,7 @@ def run(ctx):
         ]
     for k, nw, ns in cfgs:
         explore_config(ctx, k, nw, ns)
+    apalache_counting_proof(ctx)
     ctx.exhaustive = True
     ctx.assumptions += [
         "multiprocessing is replaced by the fake layer of harness/sched.py whose semantics are those modelled in Realign.tla (buffer/feeder/pipe); cross-checked by the real-multiprocessing tier in thorough mode",
